@@ -493,7 +493,7 @@ func (a *Agent) gatherCandidatesLocal(ctx context.Context, networkTypes []Networ
 					if udpConn, ok := conn.LocalAddr().(*net.UDPAddr); ok {
 						conns = append(conns, connAndPort{conn, udpConn.Port})
 					} else {
-						a.log.Warnf("Failed to get port of UDPAddr from ListenUDPInPortRange: %s %s %s", network, addr, a.gatheringUfrag(ctx))
+						closeConnAndLog(conn, a.log, "Failed to get port of UDPAddr from ListenUDPInPortRange: %s %s %s", network, addr, a.gatheringUfrag(ctx))
 
 						continue
 					}
